@@ -188,6 +188,23 @@ def d1_dbscan(F, r):
                     ty = fn["locals"][s["r"]["o"][0]["l"]]
                     if "PointType" in ty:
                         disc.append((sb, tt))
+    # `matches!(ty, Some(Clustered))` materialises the test in a bool that is switched on later: a switch on a local assigned only literal bools
+    # under a point-type test is a point-type test too
+    for sb, bb in enumerate(fn["bbs"]):
+        tt = bb["t"]
+        if tt["k"] != "switch" or not mir.is_place(tt["o"]) or any(sb == d[0] for d in disc):
+            continue
+        src = tt["o"]
+        for _ in range(3):     # through `!x` / copies
+            ds = mir.defs(fn).get(src["l"], []) if mir.is_place(src) and not src["p"] else []
+            if len(ds) == 1 and ds[0][0] == "s" and ds[0][3]["r"]["k"] in ("un", "use") and mir.is_place(ds[0][3]["r"]["o"][0]):
+                src = ds[0][3]["r"]["o"][0]
+            else:
+                break
+        ds = mir.defs(fn).get(src["l"], []) if mir.is_place(src) and not src["p"] else []
+        if len(ds) >= 2 and all(d[0] == "s" and d[3]["r"]["k"] == "use" and mir.is_const(d[3]["r"]["o"][0]) and d[3]["r"]["o"][0]["c"] in ("true", "false") for d in ds):
+            if all(any(mir.dominates(fn, dsb, d[1]) for dsb, _ in disc) for d in ds):
+                disc.append((sb, tt))
     guarded = False
     loops = mir.natural_loops(fn)
     inner = [h for h, body in sorted(loops.items(), key=lambda kv: len(kv[1])) if all(pb in body for pb, _ in pushes)]
